@@ -1,6 +1,7 @@
 package main
 
 import (
+	"sync/atomic"
 	"fmt"
 	"os"
 	"go/types"
@@ -11,7 +12,10 @@ import (
 )
 
 // FuncResult is what verifying one function produced.
+var funcResultSeq int64
+
 type FuncResult struct {
+	Seq int64 // distinguishes two verifications of the same function in one run (scratch file names)
 	Key         string
 	Obls        []*Obligation
 	Unsupported string // non-empty: the function left the supported subset; nothing is proved
@@ -123,7 +127,7 @@ func (e *Engine) ifaceMethod(key string) *types.Func {
 // VerifyFunc generates all obligations of one function.
 func (e *Engine) VerifyFunc(fn *ssa.Function, spec *FuncSpec, lockMode bool) (res *FuncResult) {
 	key := FuncKey(fn)
-	res = &FuncResult{Key: key, HasContract: spec != nil}
+	res = &FuncResult{Key: key, HasContract: spec != nil, Seq: atomic.AddInt64(&funcResultSeq, 1)}
 	fx := e.newFX(fn, spec)
 	fx.lockMode = lockMode
 	defer func() {
